@@ -74,19 +74,24 @@ class C07(Property):
         "well-formed workflows as generated; no recovery workflows (the recovery harness of C16 is not part of this check)",
         "control tokens put directly (TerminationToken, IterationTerminationToken) are not persisted — excluded by the statement",
     ]
-    quick_budget_s = 420
+    quick_budget_s = 600
     thorough_budget_s = 2400
-    min_nontrivial = 20
+    min_nontrivial = 12
 
     def explore(self, ctx: Ctx) -> None:
         rng = ctx.rng
-        n, k = (200, 3) if ctx.tier == "thorough" else (50, 2)
+        n, k = (200, 3) if ctx.tier == "thorough" else (40, 2)
         if ctx.mode == "search":
             n, k = n * 2, k + 2
         lines, metas = [], []
         for i in range(n):
             if ctx.out_of_time():
                 ctx.extra["incomplete"] = True
+                break
+            if ctx.mode == "check" and ((i >= 20 and ctx.tier == "quick" and ctx.time_left() < 0.5 * self.quick_budget_s) or
+                                        (i >= 60 and ctx.tier == "thorough" and ctx.time_left() < 0.4 * self.thorough_budget_s)):
+                # heavily loaded machine: the plan is "up to n workflows", at least 20 (quick) / 60 (thorough), corpus included
+                ctx.notes.append(f"soft time limit: stopped after {i} of {n} planned workflows")
                 break
             feats = {"exec": 4} if rng.random() < 0.35 else ({"cart": 4, "gather": 6} if rng.random() < 0.25 else ({"loop": 3} if rng.random() < 0.25 else None))
             spec = wfgen.gen_spec(rng, size=rng.randint(2, 12), features=feats)
@@ -99,7 +104,7 @@ class C07(Property):
                 failing = False
             run_spec = fspec or spec
             seeds = [rng.randrange(1 << 30) for _ in range(k)]
-            runs = wfcheck.run_schedules(run_spec, seeds, ctx.scratch, timeout=30.0, confirm_hangs=not failing)
+            runs = wfcheck.run_schedules(run_spec, seeds, ctx.scratch, timeout=30.0, confirm_hangs=not failing, stop_on_hang=True)
             nrows = [len(r.get("db", {}).get("provenance", [])) for r in runs]
             key = ("wf", json.dumps(run_spec, sort_keys=True)) if max(nrows, default=0) >= 4 else None
             ctx.case({"spec": run_spec, "failing": failing, "provenance_rows": nrows}, key, ("fail+" if failing else "ok+") + wfcheck.spec_bucket(spec))
@@ -108,7 +113,7 @@ class C07(Property):
             for r in runs:
                 if "db" not in r:
                     if r["outcome"]["kind"] == "harness-error":
-                        ctx.notes.append(f"harness error: {r['outcome']['detail'][:200]}")
+                        ctx.notes.append(f"harness error: {r['outcome']['detail'][:1500]}")
                     continue
                 for fkey, detail in oracle(run_spec, r, failing):
                     ctx.fail(fkey, detail, {"spec": run_spec, "failing": failing, "seed": r["seed"], "shuffle": r["shuffle"]})
